@@ -967,12 +967,25 @@ func pwOddDestinations(s *Stream, cfg Cfg) {
 		buf := pwBigBuf(64 << 10)
 		t0 := time.Now()
 		slowest := time.Duration(0)
-		for i := 0; i < 300; i++ {
-			t1 := time.Now()
-			pw.Write(buf)
-			if d := time.Since(t1); d > slowest {
-				slowest = d
+		var wrote atomic.Int32
+		fin := make(chan struct{})
+		go func() {
+			defer close(fin)
+			for i := 0; i < 300; i++ {
+				t1 := time.Now()
+				pw.Write(buf)
+				wrote.Add(1)
+				if d := time.Since(t1); d > slowest {
+					slowest = d
+				}
 			}
+		}()
+		select {
+		case <-fin:
+		case <-time.After(10 * time.Second):
+			s.Violate("write-blocked", fmt.Sprintf("with no consumer, write number %d (64 KiB each) has not returned after 10 s", wrote.Load()+1),
+				map[string]any{"scenario": "300 x Write(64 KiB), no consumer", "writes_completed": wrote.Load()})
+			return
 		}
 		total := time.Since(t0)
 		if total > 2*time.Second {
